@@ -350,11 +350,12 @@ func (ctx *Context) makeDetailStr(details []BufferSpan) string {
 		detailResult = buf.Bytes()
 	}
 
-	detailStr := string(detailResult)
+	// 先去掉首尾空白再比较: 解析时吃掉的尾部空白不属于 Matched，不应影响"过程与结果一致则置空"的判断
+	detailStr := strings.TrimSpace(string(detailResult))
 	if detailStr == ctx.Ret.ToString() {
 		detailStr = "" // 如果detail和结果值完全一致，那么将其置空
 	}
-	return strings.TrimSpace(detailStr)
+	return detailStr
 }
 
 func (ctx *Context) evaluate() {
